@@ -211,6 +211,15 @@ pub fn run(ctx: &Ctx) {
       for ch in ['é', '€', '😀'] { for k in 0..4usize { for n in 1..=70usize { let name = format!("{}{}", "x".repeat(k), ch.to_string().repeat(n)); if name.len() > 150 { break; }
         uni.push(Text { t: format!("[Key]\nName = {}\nPublicKey = {}\n\n[Key]\nName = {}\nPublicKey = {}\n", name, pk[0], name, pk[1]) }); uni.push(Text { t: format!("[Key]\nName = {}\nPublicKey = {}\n", name, pk[0]) }); } } }
       ctx.sse_vec("keyring_unicode_names", "keyrings whose names are multi-byte characters at every byte alignment and length up to 150 bytes (valid, over-long, duplicated)", uni, |t: &Text| { let _ = Keyring::new(&t.t); ok(true, "keyring-unicode") }); }
+    { // accepted keyrings whose entries hold arbitrary 36-byte blobs (wrong checksums included): the lookup the CLI does after a decryption must not crash
+      let mut kr = Vec::new();
+      for k in 0..200u64 { let blobs: Vec<String> = (0..1 + k % 4).map(|i| { let mut b = gen::bytes_from(k * 7 + i, 36); if i % 2 == 0 { let h = kspec::sha256(&b[..32]); b[32..].copy_from_slice(&h[..4]); } kspec::base64(&b) }).collect();
+        kr.push(Text { t: blobs.iter().enumerate().map(|(i, b)| format!("[Key]\nName = n{}\nPublicKey = {}\n", i, b)).collect::<String>() }); }
+      ctx.sse_vec("keyring_lookup_bad_checksums", "200 accepted keyrings with 1..4 entries of arbitrary 36-byte blobs: get_name_from_key for present and absent keys", kr, |t: &Text| {
+        if let Ok(k) = Keyring::new(&t.t) { for probe in [kspec::encode_public_key(&[7u8; 32]), t.t.lines().filter_map(|l| l.strip_prefix("PublicKey = ")).last().unwrap_or("").to_string()] { if let Ok(e) = EncodedPk::try_from(probe.as_str()) { let _ = k.get_name_from_key(&e); } } let _ = k.get_key("n0"); }
+        ok(true, "keyring-lookup") });
+      let big: Vec<Text> = [10_000usize, 200_000, 3_000_000].iter().flat_map(|&n| [Text { t: format!("{}[Key]\nName = a\nPublicKey = {}\n", "\n".repeat(n), kspec::encode_public_key(&[7u8; 32])) }, Text { t: format!("[Key]\nName = a\n{}PublicKey = {}\n", "# c\n".repeat(n), kspec::encode_public_key(&[7u8; 32])) }]).collect();
+      ctx.sse_vec("keyring_many_ignorable_lines", "10^4 .. 3*10^6 consecutive blank / comment lines around a valid entry", big, |t: &Text| { ensure!(Keyring::new(&t.t).is_ok(), "a keyring with many blank or comment lines was rejected"); ok(true, "keyring-many-lines") }); }
     ctx.pbt("keyring_texts", ctx.n(30_000, 800_000), || prop_oneof!["\\PC{0,300}", "(\\[Key\\]|Name|PublicKey|PrivateKey|=| |\t|\n|\r\n|#|[a-zA-Z0-9+/]{1,48}|[a-zA-Z0-9+/]{112}){0,40}", "(\\[Key\\]\nName = [a-z]{0,3}\nPublicKey = [A-Za-z0-9+/=]{40,52}\n){1,3}"].prop_map(|t| Text { t }), |t: &Text| { let _ = Keyring::new(&t.t); ok(t.t.contains("[Key]"), "keyring-text") });
     ctx.shrink_iters.store(200, std::sync::atomic::Ordering::Relaxed);
     let maxlen = 3u32; let total = (0..=maxlen).map(|l| VOCAB.pow(l)).sum::<usize>() * 2;
